@@ -714,8 +714,39 @@ fn atom(scope: &Scope, simple: bool) -> BoxedStrategy<Pred> {
         .prop_filter_map("string op on a string-capable key", |((e, k), op, s)| {
             if is_str_key(k) || k == "h" { Some(Pred::Str(e, op, s.to_string())) } else { None }
         });
+    // two-sided range on one property, bounds in either textual order and of either strictness, literals from the
+    // same small domain as the data (so a stored value often sits exactly on a bound): the shape the planner's
+    // BETWEEN / range path recognises
+    let range2 = prop_ref(scope).prop_flat_map(|(e, k)| {
+        (
+            Just(e),
+            prop_oneof![Just(CmpOp::Lt), Just(CmpOp::Le)],
+            prop_oneof![Just(CmpOp::Gt), Just(CmpOp::Ge)],
+            literal_for(k),
+            literal_for(k),
+            any::<bool>(),
+            any::<bool>(),
+        )
+            .prop_filter_map("ordered key", move |(e, up, lo, a, b, upper_first, lit_left)| {
+                if k == "b" {
+                    // booleans have no ranges: a plain equality keeps the strategy rejection-free
+                    return Some(Pred::Cmp(e, CmpOp::Eq, Expr::Lit(a)));
+                }
+                let flip = |op: CmpOp| match op {
+                    CmpOp::Lt => CmpOp::Gt,
+                    CmpOp::Le => CmpOp::Ge,
+                    CmpOp::Gt => CmpOp::Lt,
+                    CmpOp::Ge => CmpOp::Le,
+                    o => o,
+                };
+                let mk = |e: Expr, op: CmpOp, l: Val| if lit_left { Pred::Cmp(Expr::Lit(l), flip(op), e) } else { Pred::Cmp(e, op, Expr::Lit(l)) };
+                let u = mk(e.clone(), up, a);
+                let l = mk(e, lo, b);
+                Some(if upper_first { Pred::And(Box::new(u), Box::new(l)) } else { Pred::And(Box::new(l), Box::new(u)) })
+            })
+    });
     if simple {
-        return prop_oneof![8 => cmp_lit, 2 => isnull, 2 => inlist, 2 => strop].boxed();
+        return prop_oneof![8 => cmp_lit, 2 => isnull, 2 => inlist, 2 => strop, 3 => range2].boxed();
     }
     // literal on the left (reversed operands)
     let cmp_rev = prop_ref(scope).prop_flat_map(|(e, k)| {
@@ -747,7 +778,7 @@ fn atom(scope: &Scope, simple: bool) -> BoxedStrategy<Pred> {
             let right = if use_prop && is_num_key(rk) && !matches!(aop, ArithOp::Div | ArithOp::Mod) { r } else { Expr::Lit(lit) };
             Some(Pred::Cmp(Expr::Arith(Box::new(l), aop, Box::new(right)), op, Expr::Lit(rhs)))
         });
-    prop_oneof![8 => cmp_lit, 2 => cmp_rev, 2 => cmp_pp, 3 => arith, 3 => isnull, 2 => inlist, 2 => strop].boxed()
+    prop_oneof![8 => cmp_lit, 2 => cmp_rev, 2 => cmp_pp, 3 => arith, 3 => isnull, 2 => inlist, 2 => strop, 4 => range2].boxed()
 }
 
 fn pred(scope: &Scope, cfg: &QueryCfg) -> BoxedStrategy<Pred> {
